@@ -17,7 +17,72 @@ T("ds", "TimerQueueTrace", "TimerQueueTrace.cfg",
    {"e": "t_getptr", "s": 1, "u": 4, "id": 2}, {"e": "t_getptr", "s": 1, "u": 4, "id": 0}],
   lambda t: t[:3] + [{"e": "t_getptr", "s": 1, "u": 4, "id": 1}])
 
+def fixtures():
+    """recorded executions of the real code (tools/mkfixtures.py) with a corruption recipe each"""
+    fd = os.path.join(vlib.VERIF, "selftest")
+    idx = json.load(open(os.path.join(fd, "index.json")))
+    for name, meta in sorted(idx.items()):
+        good = vlib.read_ndjson(os.path.join(fd, name + ".ndjson"))
+        rec = meta["corrupt"]
+
+        def corrupt(t, rec=rec):
+            t = [dict(e) for e in t]
+            for i, e in enumerate(t):
+                if e.get("e") == rec[1]:
+                    if rec[0] == "drop":
+                        return t[:i] + t[i + 1:]
+                    e[rec[2]] = rec[3]
+                    return t
+            raise RuntimeError("corruption target %s not in fixture %s" % (rec[1], name))
+        T(meta["area"], meta["module"], meta["cfg"], good, corrupt)
+
+
+def dh_modulus():
+    """the group-14 modulus written in DH.tla equals the RFC 3526 formula (mpmath in the tooling venv)"""
+    import re, subprocess
+    h = re.search(r'P14 == "([0-9a-f]+)"', open(os.path.join(vlib.SPECS, "crypto", "DH.tla")).read()).group(1)
+    code = ("from mpmath import mp, floor, pi\nmp.prec = 4000\n"
+            "print('%x' % (2**2048 - 2**1984 - 1 + 2**64 * (int(floor(mp.mpf(2)**1918 * pi)) + 124476)))")
+    r = subprocess.run(["python3-vt", "-c", code], capture_output=True, text=True, timeout=120)
+    if r.returncode != 0:
+        print("selftest: mpmath not available, modulus not re-derived (%s)" % r.stderr.strip()[-200:])
+        return 0
+    if r.stdout.strip() != h:
+        print("SELFTEST FAILED: DH.tla modulus differs from the RFC 3526 formula")
+        return 1
+    return 0
+
+
 def main():
+    bad = dh_modulus()
+    fixtures()
+    d = os.path.join(vlib.BUILD, "selftest")
+    os.makedirs(d, exist_ok=True)
+    import concurrent.futures
+    jobs = []
+    for (area, module, cfg, good, corrupt) in TESTS:
+        sd = os.path.join(vlib.SPECS, area)
+        for name, tr, want in (("good", good, True), ("corrupt", corrupt(list(good)), False)):
+            jobs.append((sd, module, cfg, name, tr, want, len(jobs)))
+
+    def one(j):
+        sd, module, cfg, name, tr, want, k = j
+        p = os.path.join(d, "%s.%d.%s.ndjson" % (module, k, name))
+        with open(p, "w") as f:
+            for ev in tr:
+                f.write(json.dumps(ev) + "\n")
+        ok, line, res = vlib.validate_file(sd, module, cfg, p, timeout=300)
+        return (module, name, ok, want, res.out[-1500:])
+    with concurrent.futures.ThreadPoolExecutor(max_workers=8) as ex:
+        for module, name, ok, want, out in ex.map(one, jobs):
+            if ok != want:
+                bad += 1
+                print("SELFTEST FAILED: %s %s trace: accepted=%s expected=%s\n%s" % (module, name, ok, want, out))
+    print("selftest: %d trace checks, %d failures" % (len(jobs), bad))
+    return 1 if bad else 0
+
+
+def main_old():
     bad = 0
     d = os.path.join(vlib.BUILD, "selftest")
     os.makedirs(d, exist_ok=True)
